@@ -655,3 +655,25 @@ _amend("C19", "{read, quote-evaluate, build at run time, keep live across two fo
 _amend("C06", "(+ 1 2) is evaluated as a canary.",
        "(+ 1 2) is evaluated as a canary; if that fails although ((lambda (x) x) 3) still works, the text may have rebound the global + "
        "(counted, fresh VM, no verdict).")
+_amend("C02", "The probe body logs every read of every name",
+       "Every level also defines an internal procedure whose three formals carry the three names (bound inside it only). The probe body logs every read of every name")
+_amend("C05", "Every session is non-trivial;",
+       "Every session also runs in two fresh VMs that must agree; for half of the sessions the second one forces a collection every 1..23 instructions. Every session is non-trivial;")
+_amend("C07", "on top of a seeded session of generated definitions",
+       "one case in four drives the VM that sees the failures in slices (prepare_eval + run_count(b), b in {1, 2, 5, 17, 100, 1000}), on top of a seeded session of generated definitions")
+_amend("C12", "part 2: six programs under schedules",
+       "part 1c: four of the garbage loops driven in slices (prepare_eval + run_count(b), b in {7, 100, 1000, 8191}). part 2: six programs under schedules")
+_amend("C17", "nested and consecutive ellipses, dotted and vector templates)",
+       "nested and consecutive ellipses, an ellipsis at the top level of the template and directly before the dot of a dotted template, dotted and vector templates)")
+_amend("C19", "Quick runs every cell at 10^3 and 10^4 and the release/main-thread column at 10^5",
+       "Quick runs every cell at 10^3 and 10^4, the release/main-thread column at 10^5, and for the flat-list and recursion rows also the release/2-MiB-thread column at 10^5")
+_amend("C20", "One evaluation = one (text, cursor) pair",
+       "Part 3: texts assembled from pieces whose token structure is known by construction (brackets of all spellings, #(, string literals "
+       "containing brackets, escaped quotes and backslashes, comments containing quotes and brackets, character literals of brackets, atoms), every "
+       "cursor; the lexer's bracket tokens must equal the constructed ones and the highlighter is judged against the constructed token stream, "
+       "independently of marwood's lexer. One evaluation = one (text, cursor) pair")
+_amend("C03", "and 14 allocation-heavy templates (list/vector/string builders,",
+       "and 16 allocation-heavy templates (list/vector/string builders, symbols whose spelling needs escapes interned, dropped and re-interned,")
+_amend("C06", "radix / exponent / syntax edge cases;",
+       "radix / exponent / syntax edge cases, and three histories in which evaluations fail in between (a deep continuation re-entered after a "
+       "run-time or syntax error, deep recursion after many errors);")
